@@ -1432,6 +1432,244 @@ where
 }
 
 // ------------------------------------------------------------------------------------------
+// containers of points: validation of the elements goes through `Valid::batch_check`, which `Projective` overrides
+// (normalize_batch + Affine::batch_check), and through `Projective::check` (elements of tuples); neither is reached
+// by deserializing a single point (that validates the affine point before converting it)
+// ------------------------------------------------------------------------------------------
+
+/// container shapes, encoded by the harness from the element encodings: `Vec<Proj>` (u64 length prefix),
+/// `[Proj; 3]` (no prefix), `Vec<(Proj, Affine)>` (prefix = number of pairs), `Vec<Affine>`
+const SHAPES: [&str; 4] = ["Vec<Projective>", "[Projective;3]", "Vec<(Projective,Affine)>", "Vec<Affine>"];
+
+fn batch_len(shape: usize, big: u64, t: &mut Tape<'_>) -> (usize, &'static str) {
+    if shape == 1 {
+        return (3, "len=3");
+    }
+    let (n, l) = match t.weighted(&[5, 3, 1]) {
+        0 => (t.range(1, 4), "len<=4"),
+        1 => (t.range(5, 12), "len=5..12"),
+        _ => (t.range(20, big), "len>=20"),
+    };
+    let n = n as usize;
+    (if shape == 2 { 2 * ((n + 1) / 2) } else { n }, l)
+}
+
+fn batch_frame(shape: usize, n: usize, body: &[u8], t: &mut Tape<'_>) -> (Vec<u8>, usize) {
+    let mut input = Vec::new();
+    if shape != 1 {
+        input.extend(((if shape == 2 { n / 2 } else { n }) as u64).to_le_bytes());
+    }
+    input.extend(body);
+    let honest = input.len();
+    let pad = t.idx(9);
+    input.extend(t.bytes(pad));
+    (input, honest)
+}
+
+/// `want[i]` = the point element i must decode to (None: the invalid element). `bad` = label of the invalid element.
+fn batch_run<T: CanonicalDeserialize, Pt: PartialEq + std::fmt::Debug>(
+    shape: &str,
+    input: &[u8],
+    honest: usize,
+    c: Compress,
+    want: &[Option<Pt>],
+    bad: Option<&'static str>,
+    decode: &dyn Fn(&T) -> Vec<Pt>,
+) -> R {
+    for val in [Validate::Yes, Validate::No] {
+        let mut rd = CountRead::new(input);
+        let res = no_panic("deserialize.container", || deser::<T, ()>(&mut rd, c, val))?;
+        ensure!(rd.pos <= honest, "batch.read-past-size", "{}: {} bytes consumed of a {}-byte encoding", shape, rd.pos, honest);
+        match res {
+            Ok(v) => {
+                if val == Validate::Yes {
+                    ensure!(
+                        bad.is_none(),
+                        format!("batch.accepted.{}.{}", bad.unwrap_or(""), cname(c)),
+                        "{} ({}, checked) with an invalid element ({}) at position {:?} of {} was accepted",
+                        shape,
+                        cname(c),
+                        bad.unwrap_or(""),
+                        want.iter().position(|w| w.is_none()),
+                        want.len()
+                    );
+                }
+                let got = decode(&v);
+                ensure!(got.len() == want.len(), "batch.length", "{}: {} elements decoded, {} encoded", shape, got.len(), want.len());
+                for (i, (g, w)) in got.iter().zip(want).enumerate() {
+                    if let Some(w) = w {
+                        ensure!(g == w, "batch.decodes-differently", "{} ({}, {}): element {} decodes to {:?}, expected {:?}", shape, cname(c), vname(val), i, g, w);
+                    }
+                }
+            },
+            Err(err) => ensure!(bad.is_some(), format!("batch.valid-rejected.{}", vname(val)), "{} ({}, {}) of {} valid subgroup points rejected: {:?}", shape, cname(c), vname(val), want.len(), err),
+        }
+    }
+    Ok(())
+}
+
+fn batch_sw<P: SWCurveConfig>(cx: &SwCtx<P>, name: &str, big: u64, t: &mut Tape<'_>, o: &mut Obs) -> R
+where
+    P::BaseField: OracleRepr,
+{
+    let a = P::COEFF_A;
+    let c = if t.bool() { Compress::Yes } else { Compress::No };
+    let shape = t.weighted(&[4, 2, 3, 1]);
+    let (n, llabel) = batch_len(shape, big, t);
+    let bad_at = if t.chance(3, 5) { Some(t.idx(n)) } else { None };
+    let mut body = Vec::new();
+    let mut want: Vec<Option<Sw<P::BaseField>>> = Vec::new();
+    let mut bad: Option<&'static str> = None;
+    let mut n_id = 0;
+    for i in 0..n {
+        if Some(i) == bad_at {
+            let k = t.below(3);
+            if k == 0 && !cx.outside.is_empty() {
+                let (z, _) = cx.outside[t.idx(cx.outside.len())];
+                bad = Some("outside-subgroup");
+                body.extend(ser(&sw_to_affine::<P>(&z), c)?);
+            } else if c == Compress::No {
+                let (x, y) = match cx.pool[t.idx(cx.pool.len())] {
+                    Sw::Aff(x, y) => (x, y),
+                    _ => unreachable!(),
+                };
+                // (4x, 8y) lies on y^2 = x^3 + 16 a x + 64 b; fall back to (x, y + 1) should that be the same curve
+                let four = P::BaseField::from(4u64);
+                let mut q = Sw::Aff(x * four, y * four.double());
+                if SwCtx::<P>::on_curve(&q) {
+                    q = Sw::Aff(x, y + P::BaseField::one());
+                }
+                assert!(!SwCtx::<P>::on_curve(&q));
+                let Sw::Aff(qx, qy) = q else { unreachable!() };
+                bad = Some("off-curve");
+                body.extend(ser(&SwAffine::<P>::new_unchecked(qx, qy), c)?);
+            } else {
+                bad = Some("without-root");
+                body.extend(ser(&SwAffine::<P>::new_unchecked(cx.noroot[t.idx(cx.noroot.len())], P::BaseField::one()), c)?);
+            }
+            want.push(None);
+        } else {
+            let q = if t.chance(1, 7) {
+                n_id += 1;
+                Sw::Inf
+            } else {
+                sw_add(&a, &cx.pool[t.idx(cx.pool.len())], &cx.pool[t.idx(cx.pool.len())])
+            };
+            body.extend(ser(&sw_to_affine::<P>(&q), c)?);
+            want.push(Some(q));
+        }
+    }
+    let (input, honest) = batch_frame(shape, n, &body, t);
+    o.class(SHAPES[shape]);
+    o.class(llabel);
+    o.class(bad.unwrap_or("all-valid"));
+    o.class(cname(c));
+    o.class_if(n_id > 0, "contains-identity");
+    o.class_if(bad_at == Some(n - 1), "invalid-element-last");
+    o.class_if(bad_at == Some(0), "invalid-element-first");
+    o.nt(bad.is_some() || n >= 2);
+    o.evals(2);
+    o.show(|| format!("{}: {} {} n={} {} at {:?} ({} bytes)", name, SHAPES[shape], cname(c), n, bad.unwrap_or("all-valid"), bad_at, input.len()));
+    match shape {
+        0 => batch_run::<Vec<SwProj<P>>, _>(SHAPES[0], &input, honest, c, &want, bad, &|v| v.iter().map(|q| sw_from_proj::<P>(q)).collect()),
+        1 => batch_run::<[SwProj<P>; 3], _>(SHAPES[1], &input, honest, c, &want, bad, &|v| v.iter().map(|q| sw_from_proj::<P>(q)).collect()),
+        2 => batch_run::<Vec<(SwProj<P>, SwAffine<P>)>, _>(SHAPES[2], &input, honest, c, &want, bad, &|v| {
+            v.iter().flat_map(|(q, r)| [sw_from_proj::<P>(q), sw_from_affine::<P>(r)]).collect()
+        }),
+        _ => batch_run::<Vec<SwAffine<P>>, _>(SHAPES[3], &input, honest, c, &want, bad, &|v| v.iter().map(|q| sw_from_affine::<P>(q)).collect()),
+    }
+}
+
+fn batch_te<P: TECurveConfig>(cx: &TeCtx<P>, name: &str, big: u64, t: &mut Tape<'_>, o: &mut Obs) -> R
+where
+    P::BaseField: OracleRepr,
+{
+    let (a, d) = (TeCtx::<P>::a(), TeCtx::<P>::d());
+    let c = if t.bool() { Compress::Yes } else { Compress::No };
+    let shape = t.weighted(&[4, 2, 3, 3]);
+    let (n, llabel) = batch_len(shape, big, t);
+    let bad_at = if t.chance(3, 5) { Some(t.idx(n)) } else { None };
+    let mut body = Vec::new();
+    let mut want: Vec<Option<Te<P::BaseField>>> = Vec::new();
+    let mut bad: Option<&'static str> = None;
+    let mut n_id = 0;
+    let one = P::BaseField::one();
+    for i in 0..n {
+        if Some(i) == bad_at {
+            let k = t.below(3);
+            if k == 0 || (c == Compress::Yes && cx.noroot.is_empty()) {
+                let (z, _) = cx.outside[t.idx(cx.outside.len())];
+                bad = Some("outside-subgroup");
+                body.extend(ser(&te_to_affine::<P>(&z), c)?);
+            } else if c == Compress::No {
+                let Te(x, y) = cx.pool[t.idx(cx.pool.len())];
+                let mut q = Te(x + one, y);
+                if TeCtx::<P>::on_curve(&q) {
+                    q = Te(x + one + one, y);
+                }
+                assert!(!TeCtx::<P>::on_curve(&q));
+                bad = Some("off-curve");
+                body.extend(ser(&TeAffine::<P>::new_unchecked(q.0, q.1), c)?);
+            } else {
+                bad = Some("without-root");
+                body.extend(ser(&TeAffine::<P>::new_unchecked(P::BaseField::zero(), cx.noroot[t.idx(cx.noroot.len())]), c)?);
+            }
+            want.push(None);
+        } else {
+            let q = if t.chance(1, 7) {
+                n_id += 1;
+                te_identity()
+            } else {
+                let i = t.idx(cx.pool.len());
+                te_add(&a, &d, &cx.pool[i], &cx.pool[t.idx(cx.pool.len())]).unwrap_or(cx.pool[i])
+            };
+            body.extend(ser(&te_to_affine::<P>(&q), c)?);
+            want.push(Some(q));
+        }
+    }
+    let (input, honest) = batch_frame(shape, n, &body, t);
+    o.class(SHAPES[shape]);
+    o.class(llabel);
+    o.class(bad.unwrap_or("all-valid"));
+    o.class(cname(c));
+    o.class_if(n_id > 0, "contains-identity");
+    o.class_if(bad_at == Some(n - 1), "invalid-element-last");
+    o.class_if(bad_at == Some(0), "invalid-element-first");
+    o.nt(bad.is_some() || n >= 2);
+    o.evals(2);
+    o.show(|| format!("{}: {} {} n={} {} at {:?} ({} bytes)", name, SHAPES[shape], cname(c), n, bad.unwrap_or("all-valid"), bad_at, input.len()));
+    let dp = |q: &TeProj<P>| te_from_proj::<P>(q).map(|z| z.0).unwrap_or(Te(P::BaseField::zero(), P::BaseField::zero()));
+    match shape {
+        0 => batch_run::<Vec<TeProj<P>>, _>(SHAPES[0], &input, honest, c, &want, bad, &|v| v.iter().map(dp).collect()),
+        1 => batch_run::<[TeProj<P>; 3], _>(SHAPES[1], &input, honest, c, &want, bad, &|v| v.iter().map(dp).collect()),
+        2 => batch_run::<Vec<(TeProj<P>, TeAffine<P>)>, _>(SHAPES[2], &input, honest, c, &want, bad, &|v| v.iter().flat_map(|(q, r)| [dp(q), te_from_affine::<P>(r)]).collect()),
+        _ => batch_run::<Vec<TeAffine<P>>, _>(SHAPES[3], &input, honest, c, &want, bad, &|v| v.iter().map(|q| te_from_affine::<P>(q)).collect()),
+    }
+}
+
+fn batch_sw_rels<P: SWCurveConfig>(out: &mut Vec<Rel>, name: &'static str, tier: Tier, weight: u32, zcash: bool)
+where
+    P::BaseField: OracleRepr,
+{
+    let cell: Arc<OnceLock<SwCtx<P>>> = Arc::new(OnceLock::new());
+    let cases = (tier.pick(400u32, 8000) / weight).max(40);
+    let big = tier.pick(40u64, 120);
+    out.push(
+        Rel::new(format!("batch/{}", name), cases, 6 * big as usize + 64, move |t, o| batch_sw::<P>(cell.get_or_init(|| SwCtx::<P>::new(zcash, false)), name, big, t, o)).shrink_iters(200),
+    );
+}
+
+fn batch_te_rels<P: TECurveConfig>(out: &mut Vec<Rel>, name: &'static str, tier: Tier, weight: u32)
+where
+    P::BaseField: OracleRepr,
+{
+    let cell: Arc<OnceLock<TeCtx<P>>> = Arc::new(OnceLock::new());
+    let cases = (tier.pick(400u32, 8000) / weight).max(40);
+    let big = tier.pick(40u64, 120);
+    out.push(Rel::new(format!("batch/{}", name), cases, 6 * big as usize + 64, move |t, o| batch_te::<P>(cell.get_or_init(|| TeCtx::<P>::new(false)), name, big, t, o)).shrink_iters(200));
+}
+
+// ------------------------------------------------------------------------------------------
 
 fn relations(tier: Tier) -> Vec<Rel> {
     let mut out = Vec::new();
@@ -1457,12 +1695,14 @@ fn relations(tier: Tier) -> Vec<Rel> {
         };
     }
     for_each_shipped_sw!(sw);
+    for_each_helper_sw!(sw);
     macro_rules! te {
         ($cfg:ty, $name:expr, $z:expr, $w:expr) => {
             te_rels::<$cfg>(&mut out, $name, tier, $w, false);
         };
     }
     for_each_shipped_te!(te);
+    for_each_helper_te!(te);
     macro_rules! toysw {
         ($cfg:ty, $name:expr, $p:expr, $a:expr, $b:expr, $h:expr, $r:expr, $big:expr) => {
             sw_rels::<$cfg>(&mut out, concat!("toy.", $name), tier, 1, false, true);
@@ -1486,13 +1726,21 @@ fn relations(tier: Tier) -> Vec<Rel> {
     vec_rels::<ark_bls12_381::g1::Config>(&mut out, "bls12_381.G1", tier, true);
     vec_rels::<ark_bn254::g1::Config>(&mut out, "bn254.G1", tier, false);
     vec_rels::<ark_bls12_377::g1::Config>(&mut out, "bls12_377.G1", tier, false);
+
+    batch_sw_rels::<ark_bls12_381::g1::Config>(&mut out, "bls12_381.G1", tier, 2, true);
+    batch_sw_rels::<ark_bn254::g2::Config>(&mut out, "bn254.G2", tier, 3, false);
+    batch_sw_rels::<ark_bls12_377::g1::Config>(&mut out, "bls12_377.G1", tier, 2, false);
+    batch_sw_rels::<ark_secp256k1::Config>(&mut out, "secp256k1", tier, 1, false);
+    batch_te_rels::<ark_ed_on_bls12_381::JubjubConfig>(&mut out, "jubjub.TE", tier, 1);
+    batch_te_rels::<ark_ed_on_bls12_381_bandersnatch::BandersnatchConfig>(&mut out, "bandersnatch.TE", tier, 1);
+    batch_te_rels::<ark_ed25519::EdwardsConfig>(&mut out, "ed25519", tier, 1);
     out
 }
 
 fn main() {
     vh_core::engine::main(PropSpec {
         id: "C10",
-        rule: "Byte strings are built by class and fed to deserialize_with_mode or, for about half of the strings (a hash of the bytes decides), to the convenience method documented as its synonym (deserialize_compressed / _unchecked / deserialize_uncompressed / _unchecked) (Affine 3/4, Projective 1/4) in one compression mode and both validation modes, behind a counting reader, followed by 0..16 random padding bytes: (a) valid encodings of subgroup points; (b) 1..3 bit flips, arbitrary flag patterns (generic 2-bit SW / 1-bit TE flags, 3-flag zcash header of curves/bls12_381); (c) compressed x (resp. y) without square root by the harness' Euler criterion; (d) on-curve points outside the subgroup (from small/edge x, r*R, points of small prime order, subgroup point + torsion point; TE: orders 2 and 4), verified by reference multiplication; (e) off-curve (x,y) uncompressed: (t^2 x, t^3 y) with t in the prime subfield, y+1, x+1, random, verified with the harness' curve equation; (f) coordinates + p or with an unused high bit set; (g) truncation to a shorter length; (h) uniform / plausible (all coordinates reduced) / constant bytes. Same for 14 prime fields, 6 towers and PairingOutput of 6 pairings (-g, g*c with c in F_p, arbitrary elements, 0). Toy curves additionally: every 2-byte (1-byte) compressed string and every (x byte, y byte, 5 values of the flag byte) uncompressed string exhaustively, with the expectation derived from the harness' own decoding and point table. Vec<Affine> with hostile length prefixes runs in a child process under an allocation guard. Oracles: no panic; bytes consumed <= serialized_size; Validate::Yes and Ok(P) => coordinates reduced, curve equation holds as evaluated by vh_core::curve, r*P = O by double-and-add over double_in_place/+= (toy: affine oracle law); classes (c)-(f) must be Err with Validate::Yes; class (a) must be Ok with the same point; PairingOutput: f^r = 1 by square-and-multiply. Non-trivial: class other than (a); distinct = distinct decoded choice sequences.",
+        rule: "Byte strings are built by class and fed to deserialize_with_mode or, for about half of the strings (a hash of the bytes decides), to the convenience method documented as its synonym (deserialize_compressed / _unchecked / deserialize_uncompressed / _unchecked) (Affine 3/4, Projective 1/4) in one compression mode and both validation modes, behind a counting reader, followed by 0..16 random padding bytes: (a) valid encodings of subgroup points; (b) 1..3 bit flips, arbitrary flag patterns (generic 2-bit SW / 1-bit TE flags, 3-flag zcash header of curves/bls12_381); (c) compressed x (resp. y) without square root by the harness' Euler criterion; (d) on-curve points outside the subgroup (from small/edge x, r*R, points of small prime order, subgroup point + torsion point; TE: orders 2 and 4), verified by reference multiplication; (e) off-curve (x,y) uncompressed: (t^2 x, t^3 y) with t in the prime subfield, y+1, x+1, random, verified with the harness' curve equation; (f) coordinates + p or with an unused high bit set; (g) truncation to a shorter length; (h) uniform / plausible (all coordinates reduced) / constant bytes. Same for 14 prime fields, 6 towers and PairingOutput of 6 pairings (-g, g*c with c in F_p, arbitrary elements, 0). Toy curves additionally: every 2-byte (1-byte) compressed string and every (x byte, y byte, 5 values of the flag byte) uncompressed string exhaustively, with the expectation derived from the harness' own decoding and point table. Vec<Affine> with hostile length prefixes runs in a child process under an allocation guard. Containers whose element validation goes through Projective::batch_check / Projective::check (batch/*: Vec<Projective>, [Projective;3], Vec<(Projective,Affine)>, Vec<Affine> of 1..40 (thorough 120) elements on 4 SW and 3 TE curves, framed by the harness from element encodings: subgroup points, identities and at most one invalid element - outside the subgroup incl. the order-2 point with x = 0, off-curve, without root - at a random position) must be rejected with Validate::Yes exactly when an invalid element is present and otherwise decode element-wise to the encoded points. The curve lists include the SWU-isogenous helper curves of bls12_381 / bls12_377 (WBConfig::IsogenousCurve) and test-curves' secp256k1 and ed_on_bls12_381. Oracles: no panic; bytes consumed <= serialized_size; Validate::Yes and Ok(P) => coordinates reduced, curve equation holds as evaluated by vh_core::curve, r*P = O by double-and-add over double_in_place/+= (toy: affine oracle law); classes (c)-(f) must be Err with Validate::Yes; class (a) must be Ok with the same point; PairingOutput: f^r = 1 by square-and-multiply. Non-trivial: class other than (a); distinct = distinct decoded choice sequences.",
         assumptions: &[
             "hostile encodings of (c)-(e) are produced with arkworks' own serializer from unchecked points (C09 checks the serializer); (f) and flag mutations use the harness' description of the byte layout (size.layout fails if it disagrees with serialized_size)",
             "Validate::No carries no validity requirement (only no panic / bounded read); truncated inputs carry no Err requirement beyond the generic oracle",
